@@ -2538,6 +2538,40 @@ pub(crate) mod verif_hooks {
         }
     }
 
+    /// Response-handler table of one connection (`ResponseHandlerMap`); handlers are identified by their request id.
+    pub(crate) struct HandlerTable(super::ResponseHandlerMap);
+
+    impl HandlerTable {
+        pub(crate) fn new() -> Self {
+            Self(super::ResponseHandlerMap::new())
+        }
+        /// `Ok(stream id)` or `Err(())` when no id is free.
+        pub(crate) fn allocate(&mut self, request_id: u64) -> Result<i16, ()> {
+            let (response_sender, _receiver) = tokio::sync::oneshot::channel();
+            self.0
+                .allocate(super::ResponseHandler {
+                    response_sender,
+                    request_id,
+                })
+                .map_err(|_| ())
+        }
+        pub(crate) fn orphan(&mut self, request_id: u64) {
+            self.0.orphan(request_id)
+        }
+        /// `Ok(Some(request id))` = handler found, `Ok(None)` = orphaned, `Err(())` = missing.
+        pub(crate) fn lookup(&mut self, stream_id: i16) -> Result<Option<u64>, ()> {
+            match self.0.lookup(stream_id) {
+                super::HandlerLookupResult::Handler(h) => Ok(Some(h.request_id)),
+                super::HandlerLookupResult::Orphaned => Ok(None),
+                super::HandlerLookupResult::Missing => Err(()),
+            }
+        }
+        pub(crate) fn is_reserved(&self, stream_id: i16) -> bool {
+            let id = stream_id as usize;
+            self.0.stream_set.used_bitmap[id / 64] & (1u64 << (id % 64)) != 0
+        }
+    }
+
     pub(crate) fn verify_keyspace_name(
         name: String,
         case_sensitive: bool,
